@@ -69,6 +69,12 @@ def epsg_str_canonical(prog: Program) -> List[Instance]:
                 rets = [r for r in walk_own(mk.node) if isinstance(r, ast.Return) and r.value is not None]
                 if any(n.targets[0].id in org.deps_names(r.value) for r in rets):
                     rebuilt = True
+    # ... or the rebuilt text is returned in place: `return f"EPSG:{code}", code`
+    for r in (r for r in walk_own(mk.node) if isinstance(r, ast.Return) and r.value is not None):
+        for js in (x for x in ast.walk(r.value) if isinstance(x, ast.JoinedStr) or (isinstance(x, ast.Call) and call_name(x) in ("format", "str") and x.args)):
+            fv = [x.value for x in ast.walk(js) if isinstance(x, ast.FormattedValue)] if isinstance(js, ast.JoinedStr) else list(js.args)
+            if any((isinstance(x, ast.Name) and x.id in int_names) or (isinstance(x, ast.Call) and call_name(x) == "int") for x in fv):
+                rebuilt = True
     if text_fast is None:
         out.append(Instance("R-CACHE", f"{mk.qual}#STRCANON", OK, "CRS.__eq__ has no textual EPSG fast path: spelling of the code cannot decide equality", eq.where()))
     else:
@@ -481,7 +487,7 @@ def warp_buffers(prog: Program) -> List[Instance]:
     f = prog.func("warp:_rio_reproject")
     out: List[Instance] = []
     fns = [f] + list(f.nested.values())
-    sees_order = any(isinstance(n, ast.Attribute) and n.attr in ("isnative", "byteorder", "newbyteorder") for g in fns for n in walk_own(g.node))
+    sees_order = any(isinstance(n, ast.Attribute) and n.attr in ("isnative", "byteorder", "newbyteorder") for _g, n in prog.closure_nodes(f))
     out.append(Instance("R-GUARDSEQ", f"{f.qual}#native-dtype", OK if sees_order else BAD,
                         "arrays in non-native byte order are converted before GDAL sees them" if sees_order else
                         "src/dst go to rasterio.warp.reproject whatever their byte order (the dtype *name* of '>f4' is 'float32' too): GDAL reads and writes them as native, NaN fill comes back as 6.9e-41", f.where()))
@@ -537,6 +543,8 @@ def tile_query_nonlinear(prog: Program) -> List[Instance]:
     cond = Conditions(t.body)
     for c in _calls(t, "range_from_bbox"):
         cs = conds_at(cond, enclosing_stmt(c))
+        if any(p and isinstance(e, ast.Compare) and isinstance(e.ops[0], ast.Is) and isinstance(e.left, ast.Attribute) and e.left.attr == "crs" and isinstance(e.comparators[0], ast.Constant) and e.comparators[0].value is None for e, p in cs):
+            continue  # a CRS-less box is already in the pixel plane: no world->pixel mapping involved
         ok = any(p and any(isinstance(x, ast.Attribute) and x.attr == "linear" for x in ast.walk(e)) for e, p in cs)
         out.append(Instance("R-GUARDSEQ", f"{t.qual}#nonlinear-all-tiles", OK if ok else BAD,
                             "candidate narrowing through world->pixel happens only for linear geoboxes" if ok else
@@ -634,6 +642,15 @@ def grid_union_details(prog: Program) -> List[Instance]:
     org = Origins(bb)
     ai = _calls(bb, "is_almost_int")
     spacing = any(isinstance(x, ast.Call) and call_name(x) in ("ulp", "spacing", "nextafter") or (isinstance(x, ast.Attribute) and x.attr == "eps") for c in ai for a in c.args[1:] + [k.value for k in c.keywords] for x in org.closure(a))
+    if not spacing:
+        # the tolerance may be computed by a private helper: look inside the helpers the tolerance expression calls
+        def _is_spacing(x: ast.AST) -> bool:
+            return isinstance(x, ast.Call) and call_name(x) in ("ulp", "spacing", "nextafter") or (isinstance(x, ast.Attribute) and x.attr == "eps")
+        for c in ai:
+            for a in c.args[1:] + [k.value for k in c.keywords]:
+                for x in org.closure(a):
+                    if isinstance(x, ast.Call) and any(g is not bb and _is_spacing(y) for g, y in prog.closure_nodes(bb, x)):
+                        spacing = True
     out.append(Instance("R-GUARDSEQ", f"{bb.qual}#spacing-aware-tol", OK if spacing else BAD,
                         "the near-integer tolerance accounts for the floating point spacing of the origins" if spacing else
                         "the pixel translation is tested against a fixed 1e-8 px: origins of crops of one grid are only known to ulp(coordinate)/pixel, which is 2e-8 px for 5 cm pixels at 6e6 m - 40% of crop pairs of one base GeoBox are rejected as incompatible", bb.where(ai[0]) if ai else bb.where()))
@@ -652,6 +669,13 @@ def slice_normalisation(prog: Program) -> List[Instance]:
     out: List[Instance] = []
     ns = prog.func("roi:_norm_slice")
     clamps = any(isinstance(n, ast.Call) and call_name(n) == "min" and any(isinstance(a, ast.Name) and a.id == ns.param_names()[1] for a in n.args) for n in walk_own(ns.node))
+    if not clamps:
+        # ... or in a private helper that is handed the axis length
+        n_p = ns.param_names()[1]
+        for g, x in prog.closure_nodes(ns):
+            if g is not ns and isinstance(x, ast.Call) and call_name(x) == "min" and any(isinstance(a, ast.Name) and a.id in g.param_names() for a in x.args) \
+                    and any(cs_ is ns and any(isinstance(a, ast.Name) and a.id == n_p for a in list(call_.args) + [k.value for k in call_.keywords]) for cs_, call_ in prog.callers_of(g)):
+                clamps = True
     out.append(Instance("R-NEGIDX", f"{ns.qual}#clamp-past-end", OK if clamps else BAD,
                         "offsets past the end stop at the end, as in numpy" if clamps else
                         "non-negative bounds are passed through unclamped: roi_normalise(s_[5:20], 10) describes 15 elements where X[5:20] has 5, roi_pad(s_[12:14], 1, 10) leaves the array", ns.where()))
